@@ -171,7 +171,7 @@ func runE2E1(c E2ECase) ev.Verdict {
 		caps = append(caps, sim.Cap11)
 	}
 
-	nc := &sim.NCServer{Hello: sim.HelloSpec{Caps: caps, SessionID: "2", Layout: "pretty", TrailLF: true}.Render(), Version: c.Version}
+	nc := &sim.NCServer{Hello: sim.HelloSpec{Caps: append(append([]string{}, caps...), sim.StdCaps...), SessionID: "2", Layout: "pretty", TrailLF: true}.Render(), Version: c.Version}
 	nc.OnRequest = func(r sim.NCRequest) []sim.NCAction {
 		body := "<ok/>"
 		if r.Index < len(c.NCBody) {
